@@ -11,7 +11,7 @@ from ..gen import queries as Q
 from ..gen.filters import FilterGen
 from ..gen.render import Renderer, canonical
 from ..oracle import judge_query
-from ..run import Stats, hyp_run, mix
+from ..run import Stats, hyp_run, mix, rng_for
 from ..strict import canon, short
 
 ID = "C02"
@@ -121,7 +121,7 @@ def t_random(seed, n, nspell, depth):
 
     def body(x):
         doc, s = x
-        rng = random.Random(s)
+        rng = rng_for(s)
         fg = FilterGen(rng, doc, depth=depth)
         # leading plain segments, then a filter-bearing segment, maybe trailing ones
         lead, cur = Q.gen_segments(rng, doc, nmax=rng.choice([0, 0, 1, 2]), desc_p=0.15) if rng.random() < 0.6 else ([], [doc])
